@@ -64,6 +64,9 @@ def flat_prog(
                 spec["setup"] = True
                 if stamp_setup:
                     spec["stamp"] = True
+                if draw(st.sampled_from([True, False, False, False])):
+                    # a setup function may legitimately return None / a falsy value (e.g. it only warms a cache)
+                    spec["kind"], spec["val"] = "const", draw(st.sampled_from([None, None, 0, "", False]))
             if i in debug_idx:
                 spec["debug"] = True
             if index_rate and i not in setup_idx and draw(st.floats(0, 1)) < index_rate:
